@@ -159,15 +159,16 @@ def opToString (order : List Name) (o : Op) (r : Res) : String :=
     | r => r
   match o with
   | .stat p => s!"stat {pathToString p} {resToString r}"
+  | .lstat p _ => s!"stat {pathToString p} {if r == .no then "no" else "yes"}"
   | .mkdir p => s!"mkdir {pathToString p} {resToString r}"
   | .creat p => s!"creat {pathToString p} {resToString r}"
   | .write p _ _ => s!"write {pathToString p}"
   | .rename p q => s!"rename {pathToString p} {pathToString q} {resToString r}"
-  | .unlink p => s!"unlink {pathToString p} {resToString r}"
-  | .rmdir p => s!"rmdir {pathToString p} {resToString r}"
+  | .unlink p _ => s!"unlink {pathToString p} {resToString r}"
+  | .rmdir p _ => s!"rmdir {pathToString p} {resToString r}"
   | .openr p => s!"openr {pathToString p} {resToString r}"
   | .read p _ => s!"read {pathToString p}"
-  | .opendir p => s!"opendir {pathToString p} {resToString r}"
+  | .opendir p _ => s!"opendir {pathToString p} {resToString r}"
   | .readdir p _ => s!"readdir {pathToString p} {resToString r}"
 
 def errToString : Err → String
@@ -217,13 +218,16 @@ inductive ProcSpec
   | call (a : Nat) (c : Cfg)
   | reduce (victims : List Nat) (c : Cfg)
   | clear (c : Cfg)
+  | fclear (c : Cfg)              -- `memory.cache(f).clear()`
+  | iclear (a : Nat) (c : Cfg)    -- `MemorizedResult(store, call_id).clear()`
 
 structure Env where
   order : List Name
   firstLine : Nat
   srcs : List Bytes
 
-/-- `call:a=3,ver=1,cb=none,shelve=0,me=0,legacy=0,compress=0` | `reduce:me=0,victims=4.5` | `clear:me=0` -/
+/-- `call:a=3,ver=1,cb=none,shelve=0,me=0,legacy=0,compress=0` | `reduce:me=0,victims=4.5` | `clear:me=0` |
+`fclear:me=0,ver=0` | `iclear:a=3,me=0,ver=0` -/
 def parseProc (env : Env) (s : String) : Option (ProcSpec × List (String × String)) :=
   match s.splitOn ":" with
   | [kind, args] => do
@@ -248,6 +252,13 @@ def parseProc (env : Env) (s : String) : Option (ProcSpec × List (String × Str
       pure (.reduce v { codec, me, ver := 0, rank }, l)
     else if kind = "clear" then
       pure (.clear { codec, me, ver := 0, rank }, l)
+    else if kind = "fclear" then do
+      let ver ← kvNat l "ver"
+      pure (.fclear { codec, me, ver, rank }, l)
+    else if kind = "iclear" then do
+      let a ← kvNat l "a"
+      let ver ← kvNat l "ver"
+      pure (.iclear a { codec, me, ver, rank }, l)
     else none
   | _ => none
 
@@ -258,6 +269,9 @@ def progOf : ProcSpec → Prog String
   | .call a c => (callProc c a).bind fun v => .ret (valToString v)
   | .reduce v c => (reduceProc c v).bind fun _ => .ret "done"
   | .clear c => (clearProc c).bind fun _ => .ret "done"
+  | .fclear c => (configure c).bind fun _ => ensureFuncDir.bind fun _ => (clearFunc c).bind fun _ => .ret "done"
+  | .iclear a c => (configure c).bind fun _ => ensureFuncDir.bind fun _ => (getMetadata c a).bind fun _ =>
+      (clearItem c a).bind fun _ => .ret "done"
 
 def outcomeToString : Outcome String → String
   | .ok s => "ok " ++ s
